@@ -267,3 +267,16 @@ for variant, cls in (('inverse', 'KFACInverseLayer'), ('eigen', 'KFACEigenLayer'
         ])},
         modifies=['*._a_factor', '*._g_factor', '*.resolved'],
     )
+
+
+# ------------------------------------------------------------------ memory_usage of the preconditioner (C13)
+# (the per-layer byte counts are proved in the layer contracts; the accumulation over layers -- a defaultdict filled
+# in a nested loop over dictionaries of dynamic keys and summed with sum(values()) -- is decided by the bounded
+# run-time contract check against the bytes of the tensors actually held; labelled bounded)
+contract(
+    f'{P}.memory_usage', props=['C13', 'C03'], mode='bounded', result=KDict(KStr, KInt),
+    ensures=[('reports_the_bytes_actually_held', 'result == held_bytes_reference(self)'),
+             ('total_is_the_sum', "result['total'] == sum(v for k, v in result.items() if k != 'total')"),
+             ('nothing_left_pending', 'nothing_pending(self._tdc)')],
+    modifies=['*'],
+)
